@@ -92,7 +92,7 @@ def run(ck, repo: Repo, tier: str):
     ck.ob("R6-two-hot-weights", q, "one-row-per-sample", ok, f"rows {r1} / {r2}", "" if ok else "each sample writes into its own row", loc(mi, n1.ast))
     lo = c1.canon() if c1 is not None else ""
     up = c2.canon() if c2 is not None else ""
-    ok = up == f"clip(1 + {lo}, 0, -1 + bins.shape[0])"
+    ok = up in (f"clip(1 + {lo}, 0, -1 + bins.shape[0])", f"clip(0, 1 + {lo}, -1 + bins.shape[0])")
     ck.ob("R6-two-hot-weights", q, "adjacent-indices", ok, f"lower idx = {lo[:60]}, upper idx = {up[:80]}", "" if ok else "the upper index must be lower+1 clipped to the last bin (adjacent non-zero entries)", loc(mi, n2.ast))
     w = v2
     want = nf.poly(parse_expr("(x - bins[LO]) / (bins[UP] - bins[LO])"), Scope(None, mi, {**env, "LO": c1, "UP": c2}, q), None) if c1 is not None and c2 is not None else None
